@@ -847,6 +847,68 @@ class _Flattener:
         return _fold_temp_lists(out)
 
 
+def _merge_parameter_copies(fn):
+    """`p__helper = a` made by the expansion for a parameter the helper rebinds: when the caller never reads `a` again (and the copy is not
+    inside a loop) the helper simply continues to work on the caller's variable - the copy is dropped and p__helper is renamed to a"""
+    changed = True
+    while changed:
+        changed = False
+        order = []
+
+        def dfs(stmts, in_loop):
+            for st in stmts:
+                order.append((st, in_loop))
+                for fld in ('body', 'orelse', 'finalbody'):
+                    b = getattr(st, fld, None)
+                    if isinstance(b, list) and b and isinstance(b[0], ast.stmt) and not isinstance(st, (ast.FunctionDef, ast.ClassDef)):
+                        dfs(b, in_loop or isinstance(st, (ast.For, ast.While)))
+                if isinstance(st, ast.Try):
+                    for h in st.handlers:
+                        dfs(h.body, in_loop)
+        dfs(fn.body, False)
+        for i, (st, in_loop) in enumerate(order):
+            if in_loop or not (isinstance(st, ast.Assign) and len(st.targets) == 1 and isinstance(st.targets[0], ast.Name) and isinstance(st.value, ast.Name)):
+                continue
+            new, old = st.targets[0].id, st.value.id
+            if '__' not in new or new == old:
+                continue
+            def own(s_):
+                # names in the statement itself, not in nested statement blocks (those are listed separately)
+                out = []
+                stack = [s_]
+                while stack:
+                    x = stack.pop()
+                    for c in ast.iter_child_nodes(x):
+                        if isinstance(c, ast.stmt) and c is not s_:
+                            continue
+                        if isinstance(c, ast.Name):
+                            out.append(c)
+                        stack.append(c)
+                return out
+            later_reads_old = any(n.id == old for s2, _ in order[i + 1:] for n in own(s2))
+            earlier_new = any(n.id == new for s2, _ in order[:i] for n in own(s2))
+            if later_reads_old or earlier_new:
+                continue
+            for s2, _ in order[i + 1:]:
+                for n in own(s2):
+                    if n.id == new:
+                        n.id = old
+            st.value = ast.copy_location(ast.Name(id=old, ctx=ast.Load()), st.value)
+            st.targets[0].id = old
+            # x = x : drop
+            for parent in ast.walk(fn):
+                for fld in ('body', 'orelse', 'finalbody'):
+                    b = getattr(parent, fld, None)
+                    if isinstance(b, list) and st in b:
+                        b[b.index(st)] = ast.copy_location(ast.Pass(), st)
+                if isinstance(parent, ast.Try):
+                    for h in parent.handlers:
+                        if st in h.body:
+                            h.body[h.body.index(st)] = ast.copy_location(ast.Pass(), st)
+            changed = True
+            break
+
+
 def flatten(scope, fn, keep=(), module_level=False):
     fl = _Flattener(scope, keep, module_level)
     new = clone(fn)
@@ -860,6 +922,7 @@ def flatten(scope, fn, keep=(), module_level=False):
     from .source import _GuardedLocals, _Canon
     _GuardedLocals().function(new)
     new = _Canon().visit(new)
+    _merge_parameter_copies(new)
     ast.fix_missing_locations(new)
     for n in ast.walk(new):
         for c in ast.iter_child_nodes(n):
